@@ -10,5 +10,13 @@ PART = {
          "up to 200 (thorough 1100). distinct = distinct element lists; non-trivial = all but the empty/root-only schema",
     assumptions=["names are NUL-free strings", "logical types are carried verbatim (not modelled beyond presence)"],
     trusted_base=["10 s alarm in the harness as the hang detector"],
+    text="Proved for every schema tree (unbounded depth/size, all labelings): build_schema's recursive descent over the "
+         "depth-first element list yields exactly the leaves in order with def/rep levels of the format rule "
+         "(C17_traverse_eq_spec), column count, element accessors per column, lookup by name, and the builder for any "
+         "number of add_column calls; plus a linear work bound for arbitrary (malformed) element lists. The Impl model is "
+         "tied to build_schema/find_column/builder by differential execution on random well-formed and malformed trees. "
+         "Nested schemas reach the real reader through in-memory metadata here (file-level tie via reference files: C06).",
+    level_note="Lean kernel; hand-written Impl.Schema tied by sampled correspondence; names NUL-free; logical type carried verbatim",
+    technique="Lean 4 proof by structural induction over schema trees + differential correspondence",
   ),
 }
